@@ -310,6 +310,13 @@ class Engine:
         for m in self.mods:
             if m.has(name):
                 return m, m.func(name)
+        # complete-object constructor / destructor emitted as an alias of the base-object one (C1 -> C2, D1 -> D2)
+        for a, b in (('C1E', 'C2E'), ('D1E', 'D2E')):
+            if a in name:
+                alt = name.replace(a, b)
+                for m in self.mods:
+                    if m.has(alt) and re.search(r'@%s = [^\n]*alias[^\n]*@%s\b' % (re.escape(name), re.escape(alt)), m.text):
+                        return m, m.func(alt)
         return None, None
 
     def find_global(self, name):
@@ -597,6 +604,27 @@ class Engine:
                 i0s = z3.simplify(i0)
                 if z3.is_bv_value(i0s) and (i0s.as_signed_long() * sz) % es == 0:
                     return Ptr(p.obj, z3.simplify(off + (i0s.as_signed_long() * sz) // es))
+            if len(idx) > 1 and sz % es == 0:
+                # array of structs stored as an array of es-byte cells (vector<shared_ptr<T>> as pairs of pointers):
+                # element index may be symbolic, the field path inside the struct must be concrete and cell-aligned
+                boff, cur = 0, rt
+                for ity, itok in idx[1:]:
+                    iv = z3.simplify(self._idx(st, (ity, itok), mod))
+                    if not z3.is_bv_value(iv):
+                        raise Unsupported('symbolic field index in gep into array object %s' % p.obj)
+                    k = iv.as_signed_long()
+                    cur = T.resolve(cur)
+                    if cur.startswith('{') or cur.startswith('<{'):
+                        offs, size, al, fields = T.struct_layout(cur)
+                        boff += offs[k]; cur = fields[k]
+                    else:
+                        mm = re.match(r'^\[(\d+) x (.*)\]$', cur)
+                        if not mm:
+                            raise Unsupported('gep through ' + cur)
+                        cur = mm.group(2)
+                        boff += k * T.size_align(cur)[0]
+                if boff % es == 0:
+                    return Ptr(p.obj, z3.simplify(off + i0 * (sz // es) + boff // es))
             raise Unsupported('gep type %s into array of %d-byte elements' % (ety, es))
         # record object: concrete byte offsets
         off = p.off
